@@ -91,6 +91,11 @@ where
     pub fn get_ref(&self) -> &W {
         self.writer.get_ref()
     }
+
+    /// Disassemble this writer without writing the data that is still buffered.
+    pub fn into_inner_unflushed(self) -> W {
+        self.writer.into_parts().0
+    }
 }
 
 impl<W> Write for BufWriterWithPos<W>
